@@ -7,6 +7,18 @@ void GMGPolar::solve()
     LIKWID_START("Solve");
     auto start_solve = std::chrono::high_resolution_clock::now();
 
+    /* ------------------------------------------------------------ */
+    /* Reset the state that describes one solve (reusable solver)   */
+    /* ------------------------------------------------------------ */
+    number_of_iterations_ = 0;
+    residual_norms_.clear();
+    exact_errors_.clear();
+    mean_residual_reduction_factor_ = 1.0;
+    if (extrapolation_ == ExtrapolationType::COMBINED) {
+        /* The combined mode starts every solve with full grid smoothing, as after setup(). */
+        full_grid_smoothing_ = true;
+    }
+
     /* ---------------------------- */
     /* Initialize starting solution */
     /* ---------------------------- */
